@@ -6,6 +6,11 @@ C20 — kernel-checked witnesses.
   empty struct type (size 0): `push_struct` pushes `align_to(0, 8) / 8 = 0` slots but the
   register-loading loop of the ND_FUNCALL arm pops one GP register for the argument, so `depth`
   ends at −1 (on the real compiler: `emit_text: Assertion 'depth == 0' failed`).
+* `C20_finding_jump_out_of_stmt_expr` (known finding `C20-jump-out-of-stmt-expr`): the full statement
+  `C20_function_Statement` is FALSE on the current code.  Witness: `for (;;) { n = ({ continue; 2; }); }`:
+  the assignment has pushed the address of `n` when the `continue` (a plain `jmp`) leaves the
+  statement expression, so the loop's continue label is reached at two different stack heights —
+  every such `continue` leaks 8 bytes.
 * `C20_fixed_*`: the two defects repaired by /repo commit 5874e28, replayed on the model: with the
   old arms the effect is wrong, with the current arms it is right.
 -/
@@ -64,6 +69,80 @@ theorem C20_finding_empty_struct_arg : ¬ C20_expr_Statement := by
     simp only [depthOf, Option.some.injEq] at hd
     rw [hd] at this
     exact absurd this (by decide)
+
+/-! ### jump out of a statement expression under a pending push -/
+
+def vN : Var := ⟨0, some "n", some tInt, 4, true, false, false, false, false, false, false, false, false⟩
+def vAB : Var := ⟨1, some "__alloca_size__", some { tInt with id := 4, kind := .ptr, size := 8, align := 8, base := 0 },
+  8, true, false, false, false, false, false, false, false, false⟩
+def tFnV : Ty := { tInt with id := 3, kind := .func, size := 1, align := 1, returnTy := 0 }
+def i0 : NInfo := ⟨none, 1, 1⟩
+def iI : NInfo := ⟨some tInt, 1, 1⟩
+
+/-- `for (;;) { n = ({ continue; 2; }); }` (`continue` is `goto .L..2`, the loop's continue label) -/
+def leakBody : Node :=
+  .for_ i0 .null .null .null
+    (.exprStmt i0 (.assign iI (.var iI (some vN))
+      (.stmtExpr iI (.cons (.goto_ i0 none (some ".L..2")) (.cons (.exprStmt i0 (.num iI 2 0 0 0 0)) .nil)))))
+    (some ".L..1") (some ".L..2")
+
+def leakFn : Obj :=
+  { v := ⟨2, some "f", some tFnV, 1, false, true, true, false, false, false, false, true, true⟩,
+    initData := none, rels := [], params := [], locals := [vN, vAB], vaArea := none,
+    allocaBottom := some vAB, body := leakBody }
+
+def leakProg : Program :=
+  { fpic := false, fcommon := true, baseFile := none, files := [], prog := [leakFn],
+    types := [tInt, tLD, tEmpty, tFnV], vlaLens := [] }
+
+def leakEnv : Env :=
+  { fpic := false, types := [tInt, tLD, tEmpty, tFnV], fnName := some "f", retTy := some tInt, params := [],
+    allocaBottom := some vAB, offsets := [(1, -16), (0, -4)] }
+
+/-- the region of the known finding: a `goto` (break / continue / goto) directly inside a statement
+    expression (conservative: the jump may also stay inside) -/
+def jumpInStmtExpr : NodeList → Bool
+  | .nil => false
+  | .cons (.goto_ _ _ _) _ => true
+  | .cons _ rest => jumpInStmtExpr rest
+
+theorem leak_env : fnEnv leakProg leakFn = .ok (leakEnv, 16) := by
+  have h : (match fnEnv leakProg leakFn with
+      | .ok (e, k) => decide (e = leakEnv ∧ k = 16)
+      | .error _ => false) = true := by decide
+  cases hf : fnEnv leakProg leakFn with
+  | error e => rw [hf] at h; simp at h
+  | ok r =>
+    obtain ⟨e, k⟩ := r
+    rw [hf] at h
+    simp only [decide_eq_true_eq] at h
+    rw [h.1, h.2]
+
+theorem leak_typed : typedS leakEnv leakBody = true := by decide
+
+def isErr : Except String Unit → Bool
+  | .error _ => true
+  | .ok _ => false
+
+/-- `Effect.checkBody` rejects the code of the witness ("fall-through into .L..2 at (rsp 0), label is
+    at (rsp -8)") -/
+theorem leak_check : (outOf (genStmt leakEnv leakBody {})).map (fun ls => isErr (checkBody ls)) = some true := by
+  decide
+
+/-- **Known finding C20-jump-out-of-stmt-expr**: a function whose code does not have one stack height
+    per label. -/
+theorem C20_finding_jump_out_of_stmt_expr : ¬ C20_function_Statement := by
+  intro h
+  have hc := leak_check
+  cases hres : genStmt leakEnv leakBody {} with
+  | error e => rw [hres] at hc; simp [outOf] at hc
+  | ok r =>
+    obtain ⟨⟨⟩, s', ls⟩ := r
+    have := (h leakProg leakFn leakEnv 16 leak_env leak_typed {} s' ls hres).1
+    rw [hres] at hc
+    simp only [outOf, Option.map_some, Option.some.injEq] at hc
+    rw [this] at hc
+    cases hc
 
 /-! ### repaired by 5874e28 ("keep the x87 register stack balanced") -/
 
